@@ -254,6 +254,30 @@ for _k, _v in ADD_TEXT_R7.items():
     ADD_TEXT[_k] = ADD_TEXT.get(_k, "") + _v
 
 
+ADD_TEXT_R8 = {
+    "C01": " After the first answer the listing is replaced in place by one of the same size with the old timestamps put back and matched again (a cache keyed by path, size and mtime shows).",
+    "C02": " The same list-macro invocation with times may occur twice in one rule; times may be written inside a mapping-form group (F40); generic to all rule checks: repeated items are written once with a YAML anchor and again through an alias, one rule document in four in another YAML spelling.",
+    "C03": " Level repeated-group: a ranged group whose only child has an exact count (run lengths with gaps), an operator macro used twice with one use repeated.",
+    "C04": " Argument kinds macro-times and repeated-group-ranged-tail; long listings with a multi-instruction $not argument astride each of 17 chunk-size candidates.",
+    "C05": " Mutators inst-extra-operand / inst-operand-removed for later instruction-level occurrences; form ranged-occurrence-before-definition: a ranged (min 0) later occurrence judged against the written-out rules with optional items around the definition (F44).",
+    "C06": " Candidate kind segment-prefixed: the rule's own operand behind %fs: / %gs: (rendered and real-objdump routes).",
+    "C07": " An empty match is never an occurrence: any reported match that covers no instruction is a deviation (F42).",
+    "C09": " Instruction text is read up to a TAB (relocation records appended by objdump -w -r are not operand text, F39).",
+    "C10": " The stream is also read while the rule's config carries a style entry.",
+    "C11": " Families binary-sections (binary input, the sections list in and out of file order) and archive-listing (a static library as text and as binary: the scan laws across member boundaries).",
+    "C13": " The character after a key reference is drawn from the full name alphabet (F38b); macro file names flipped against alphabetical order.",
+    "C14": " Pool operations over a listing of more than a megabyte (a range rule that tags one of its calls, then a plain rule naming the target) and over a listing that arrives through a named pipe (content, nothing, other content under one path); rewrites may put the old timestamps back.",
+    "C15": " A valid_addr_range may be part of the rule's config on both routes.",
+    "C16": " -F style labels, target-like and hex title names, long (over 1000 characters) and header-like symbol names.",
+    "C17": " Macro-file faults (missing, a directory, dangling link, unreadable, one of two), objdump absent while an llvm-objdump is on PATH, float / string bounds (F41), bad times inside mapping-form groups (F40); a listed fault that is accepted with the intact pair's verdict and no error is a deviation as well (unknown style excepted, as stated).",
+    "C18": " Binary route against the text route on linked ELF files with ranges narrower than the code.",
+    "C19": " References written under or beside the key of a list-macro invocation (F43); a supplied macro file that cannot be read must be reported.",
+    "C20": " Odd input file names (blanks, %, braces, #, non-ASCII, shell metacharacters).",
+}
+for _k, _v in ADD_TEXT_R8.items():
+    ADD_TEXT[_k] = ADD_TEXT.get(_k, "") + _v
+
+
 def main():
     checks = []
     for pid in ALL:
